@@ -235,6 +235,7 @@ def body_exhaustive(cfg, ctx):
     ctx.cls(cfg['kind'], f'{Nu}x{Nv}')
     nschedules = 0
     nontrivial = 0
+    ctx.inner_nontrivial = []
     counts = list(range(1, P + 3)) if P <= 9 else sorted({1, 2, 3, 4, P // 2, P - 1, P, P + 1, P + 2})
     for nthreads in counts:
         # depth-first enumeration of all schedules of this configuration (bounded)
@@ -247,6 +248,7 @@ def body_exhaustive(cfg, ctx):
             nschedules += 1
             if len(set(w for w, _ in S.log)) >= 2 and any(S.log[k][0] != S.log[k + 1][0] for k in range(len(S.log) - 1)):
                 nontrivial += 1
+                ctx.inner_nontrivial.append(hashlib.sha1(repr((cfg['kind'], cfg['eu'], cfg['ev'], nthreads, S.log)).encode()).hexdigest()[:16])
             if not check_run(ctx, cfg, ub, vb, nthreads, result, S, unknown, A0, dict(sig, nthreads_gt_pairs=nthreads > P), list(choices)):
                 return
             b = S.branching
@@ -262,7 +264,8 @@ def body_exhaustive(cfg, ctx):
         ctx.fail('shared_inputs_modified', 'basis arrays, dx or the parameter field changed during threaded assembly', **sig)
     ctx.count('schedules', nschedules)
     ctx.count('schedules_nontrivial', nontrivial)
-    ctx.nt(nontrivial > 0)
+    ctx.inner_evaluations = nschedules
+    ctx.nt(False)
 
 
 # ------------------------------------------------------------------------------ random schedules, larger local sizes
